@@ -239,6 +239,10 @@ Definition send_ack (now : N) (s : sstate) : sstate :=
   | None => s
   end.
 
+(* enter_send_eof: the first pass is over; stale inactivity expirations are cleared *)
+Definition enter_send_eof (now : N) (s : sstate) : sstate :=
+  supd_inact (c_pause now) (supd_inact (c_reset now) (set_s_phase SendEof s)).
+
 Definition s_send_pdu (now : N) (s : sstate) : sstate * result :=
   if is_some (s_prompt s) then (send_prompt now s, ROk)
   else
@@ -246,7 +250,7 @@ Definition s_send_pdu (now : N) (s : sstate) : sstate * result :=
     | SendMetadata =>
         let s := send_metadata s in
         if s_is_file_transfer s && (0 <? md_size (s_meta s)) then (set_s_phase SendData s, ROk)
-        else (set_s_phase SendEof (prepare_eof None s), ROk)
+        else (enter_send_eof now (prepare_eof None s), ROk)
     | SendData =>
         let '(s, r) :=
           if negb (is_nil (s_naks s)) then send_missing_data now s
@@ -254,7 +258,7 @@ Definition s_send_pdu (now : N) (s : sstate) : sstate * result :=
         match r with
         | ROk =>
             if s_pos s =? N.of_nat (length (s_file s))
-            then (set_s_phase SendEof (prepare_eof None s), ROk)
+            then (enter_send_eof now (prepare_eof None s), ROk)
             else (s, ROk)
         | _ => (s, r)
         end
@@ -308,7 +312,7 @@ Definition s_handle_timeout (now : N) (s : sstate) : sstate :=
 
 Definition s_process_pdu (now : N) (p : payload) (s : sstate) : sstate * result :=
   let s := if sphase_eqb (s_phase s) SendEof && negb (ssuspended s)
-           then supd_inact (c_restart now) s else s in
+           then supd_inact (c_reset now) s else s in
   match cfg_mode (s_cfg s) with
   | Acked =>
       match p with
